@@ -136,6 +136,35 @@ func vpH_C09_T_stop_acquiring() {
 
 // vpH_C09_T_stop_slow_create: Stop while the very first Create is in flight with a latency that may exceed
 // Stop's own 5s wait: the answer arrives after Stop has returned.
+// vpH_C09_T_stop_window: the answer to an in-flight Create arrives while the stop call is between its own
+// steps (the Logger's "election_stopped" line and the Metrics calls are scheduling points inside the stop call).
+func vpH_C09_T_stop_window() {
+	variant := vpChoose("variant", 2)
+	st := vpNewStore("g", 0)
+	kv := vpHandle(st, "a")
+	kv.ackYield = true
+	mt := &vpMetrics{yieldOn: true}
+	cfg := vpBaseConfig("a", time.Second, 3*time.Second)
+	cfg.ValidationInterval = time.Hour
+	cfg.Metrics = mt
+	cfg.Logger = &vpYieldLogger{at: map[string]bool{"election_stopped": true}}
+	e := vpMustNew(&vpProvider{kv}, cfg)
+	cb := &vpCallbacks{}
+	cb.install(e)
+	mon := &vpStopMon{}
+	mon.watch(mt, nil)
+	_ = e.Start(vpRootCtx())
+	mon.stopAt(e, st, cb, variant, "stop-at", 200*time.Millisecond)
+	time.Sleep(7 * time.Second)
+	vpQuiesce()
+	vpCover("C09.stop-window")
+	vpAssert("C09.stop-returned", mon.returned)
+	vpAssert("C09.no-claim-after-stop", !e.IsLeader() && !mon.claimAfter)
+	vpAssert("C02.claim-backed", !e.IsLeader())
+	vpAssert("C09.no-promote-after-stop", cb.promotes == mon.promAtRet)
+	vpAssert("C18.stopped-after-stop", e.Status().State == StateStopped && !e.Status().IsLeader)
+}
+
 func vpH_C09_T_stop_slow_create() {
 	variant := vpChoose("variant", 2)
 	st := vpNewStore("g", 0)
@@ -163,6 +192,27 @@ func vpH_C09_T_stop_slow_create() {
 }
 
 // vpH_C09_T_stop_twice: repeated stops and stop-then-start.
+// vpH_C09_T_stop_after_cancel: the context given to Start is cancelled by the caller; a later Stop /
+// StopWithContext must still leave the election STOPPED, not leading, with the demotion callback delivered.
+func vpH_C09_T_stop_after_cancel() {
+	tm := vpTimings[0]
+	startCtx, cancelStart := context.WithCancel(vpRootCtx())
+	vpStartCtx = startCtx
+	s := vpLeadingInstance(tm, 0, nil)
+	vpStartCtx = nil
+	cancelStart()
+	time.Sleep(tm.H / 2)
+	variant := vpChoose("variant", 2)
+	_ = vpDoStop(s.e, variant)
+	time.Sleep(6 * time.Second)
+	vpQuiesce()
+	vpCover("C09.stop-after-cancel")
+	vpAssert("C09.no-claim-after-stop", !s.e.IsLeader())
+	vpAssert("C18.stopped-after-stop", s.e.Status().State == StateStopped && !s.e.Status().IsLeader)
+	vpAssert("C08.balance-at-quiescence", s.cb.promotes == 1 && s.cb.demotes == 1)
+	vpAssert("C09.threads-end", vpThreadsAlive() == 0)
+}
+
 func vpH_C09_T_stop_twice() {
 	tm := vpTimings[0]
 	s := vpLeadingInstance(tm, 0, nil)
